@@ -440,6 +440,35 @@ pub fn c09_traversals<P: Payload>(st: &State<P>) -> R {
             cmp_seq("prev_traverse-stepping", id, &got, &rexp)?;
             obs += 11;
         }
+        // exhausted iterators stay exhausted (they are FusedIterator)
+        for &h in live.iter().take(12) {
+            let id = m.nodes[h].id;
+            macro_rules! fused {
+                ($name:expr, $it:expr) => {{
+                    let mut it = $it;
+                    let mut k = 0;
+                    while it.next().is_some() {
+                        k += 1;
+                        if k > bound {
+                            break;
+                        }
+                    }
+                    if it.next().is_some() || it.next().is_some() {
+                        bail!(format!("{}-not-fused", $name), "{} from node {} yields an item again after it returned None", $name, usize::from(id));
+                    }
+                }};
+            }
+            fused!("ancestors", id.ancestors(a));
+            fused!("predecessors", id.predecessors(a));
+            fused!("preceding_siblings", id.preceding_siblings(a));
+            fused!("following_siblings", id.following_siblings(a));
+            fused!("children", id.children(a));
+            fused!("reverse_children", id.reverse_children(a));
+            fused!("descendants", id.descendants(a));
+            fused!("traverse", id.traverse(a));
+            fused!("reverse_traverse", id.reverse_traverse(a));
+            obs += 9;
+        }
         // next/prev are inverse on every edge of the whole forest
         for &h in &live {
             let id = m.nodes[h].id;
